@@ -218,6 +218,23 @@ def source_of(case, name):
             % (name, ', '.join(['self'] + ps), POISON, names, name, ', '.join(['self'] + ps)))
   if case['kind'] == 'nest':
     return nest_source(case, name)
+  if case['kind'] == 'hier':
+    psp = param_list(case['sig_p'], False)
+    sp = case['sig_p']
+    pcall = ', '.join([str(i + 1) for i in range(len(sp['pos']))] + ['%s=%d' % (n, 7) for n, _ in sp['kwonly']])
+    body = ('  def __init__(%s):\n'
+            '    rec = dict(locals())\n'
+            '    del rec["self"]\n'
+            '    rec.pop("__class__", None)\n'
+            '    super().__init__(%s)\n'
+            '    self.rec = rec\n' % (', '.join(['self'] + ps), pcall))
+    return ('class %s_parent:\n'
+            '  def __init__(%s):\n'
+            '    rec = dict(locals())\n'
+            '    del rec["self"]\n'
+            '    self.rec_p = rec\n'
+            'class %s(%s_parent):\n%s'
+            'HIER_CHILD_BODY = %r\n' % (name, ', '.join(['self'] + psp), name, name, body, body))
   if case.get('via') == 'subclass':
     # the wrapped logic RAISES on a poisoned argument — in the plain function and in `_call` alike
     names = [n for n, _ in sig['pos']]
@@ -447,7 +464,10 @@ class C18(Prop):
           '_call READS the inner members, CALLS the inner functor, reads again, also from a second thread; '
           'class-based functors whose _call RAISES on a poisoned argument (caller or outer functor catches), followed '
           'by member reads, a rebind and further calls on the same object; call-time keywords named like the *args '
-          'parameter (scalar, falsy, empty and non-empty list values) for signatures with and without **kwargs. '
+          'parameter (scalar, falsy, empty and non-empty list values) for signatures with and without **kwargs; '
+          'wrapper class HIERARCHIES: pg.symbolize(Parent), then `class Child(SymParent)` with its own __init__ '
+          '(positional parameters re-ordered / renamed, positional-only and keyword-only ones added), parent-first '
+          'and child-first, construction, clone, JSON and a rebind of the child. '
           'Non-trivial: at least one argument is '
           'supplied and the signature has at least one parameter; distinct: by the whole case.')
   trusted_base = [
@@ -600,9 +620,11 @@ class C18(Prop):
     return c1, c2
 
   def gen_case(self, rng, sig=None):
-    kind = rng.weighted([(22, 'cls'), (10, 'hist'), (8, 'nest'), (60, 'functor')])
+    kind = rng.weighted([(20, 'cls'), (9, 'hist'), (8, 'nest'), (7, 'hier'), (56, 'functor')])
     if kind == 'nest':
       return self.gen_nest(rng)
+    if kind == 'hier':
+      return self.gen_hier(rng)
     ann = rng.chance(0.3)
     auto_typing = ann and rng.chance(0.5)
     via = 'symbolize'
@@ -726,6 +748,37 @@ class C18(Prop):
     if rng.chance(0.15) and sig_names(sig):
       # a clone of the functor is re-bound before the original is called: must not affect the original
       case['clone_upd'] = [[n, self.val(rng)] for n in rng.sample(sig_names(sig), rng.randint(1, min(2, len(sig_names(sig)))))]
+    return case
+
+  def gen_hier(self, rng):
+    """Wrapper class HIERARCHY: pg.symbolize(Parent), then `class Child(SymParent)` with its own
+    __init__ (positional parameters re-ordered / renamed, positional-only and keyword-only ones added),
+    instantiated parent-first or child-first within the case."""
+    self.set_pool(rng, specials=True)
+    sig_p = self.gen_sig(rng)
+    sig_p.pop('posonly', None)
+    if rng.chance(0.5) and len(sig_p['pos']) >= 2:
+      # same names, other order (defaults stay a suffix)
+      names = rng.shuffle([n for n, _ in sig_p['pos']])
+      nd = sum(1 for _, d in sig_p['pos'] if d is not None)
+      pos = [[n, (self.dflt(rng) if i >= len(names) - nd else None)] for i, n in enumerate(names)]
+      sig = {'pos': pos, 'varargs': sig_p['varargs'] if rng.chance(0.5) else None,
+             'kwonly': [list(p) for p in sig_p['kwonly']] if rng.chance(0.5) else [], 'varkw': None}
+      if rng.chance(0.3):
+        sig['posonly'] = rng.randint(1, len(pos))
+    else:
+      sig = self.gen_sig(rng)
+    call = self.gen_valid_call(rng, sig)
+    if rng.chance(0.15):
+      call = self.perturb(rng, sig, call)
+    pcall = self.gen_valid_call(rng, sig_p)
+    case = {'kind': 'hier', 'via': 'symbolize', 'ann': False, 'auto_typing': False, 'mode': 'hierarchy',
+            'sig': sig, 'sig_p': sig_p, 'order': rng.choice(['parent-first', 'child-first']),
+            'c1': dict(call, kwargs=dedupe(call['kwargs']), override=False, ignore=False),
+            'p_c1': dict(pcall, kwargs=dedupe(pcall['kwargs']))}
+    names = [n for n in sig_names(sig) if n not in [p[0] for p in sig['pos'][:sig.get('posonly', 0)]]]
+    if names:
+      case['after_upd'] = [[rng.choice(names), rng.randint(20, 29)]]
     return case
 
   def gen_nest(self, rng):
@@ -899,6 +952,8 @@ class C18(Prop):
   # -- execution --------------------------------------------------------------------------
 
   def model_request(self, case):
+    if case['kind'] == 'hier':
+      return {'kind': 'cls', 'sig': case['sig'], 'c1': case['c1'], 'fix29': True}
     if case['kind'] == 'nest':
       return {'kind': 'nest', 'sig': case['sig'], 'sig_in': case['sig_in'], 'c1': case['c1'], 'c2': case['c2'],
               'in_c1': case['in_c1'], 'in_c2': case['in_c2'], 'late': case.get('late', [])}
@@ -916,13 +971,13 @@ class C18(Prop):
     missing = pg.MISSING_VALUE
     sig = case['sig']
     mod = gen_module()
-    name = fresh_name('K' if case['kind'] in ('cls', 'hist') else 'fn')
+    name = fresh_name('K' if case['kind'] in ('cls', 'hist', 'hier') else 'fn')
     src = source_of(case, name)
     exec(compile(src, '<c18:%s>' % name, 'exec'), mod.__dict__)   # pylint: disable=exec-used
     plain = mod.__dict__[name]
     c1 = case['c1']
     a1, k1 = c1['args'], c1['kwargs']
-    attr = 'rec' if case['kind'] in ('cls', 'hist') else None
+    attr = 'rec' if case['kind'] in ('cls', 'hist', 'hier') else None
     model = {}
     obs = {'source': src}
 
@@ -930,8 +985,8 @@ class C18(Prop):
       out = outcome(lambda: plain(*pos(args), **kw(kwargs)), sig, with_kind=True, attr=attr)
       # second reference: inspect.signature(...).bind + apply_defaults
       def via_bind():
-        s = inspect.signature(plain.__init__ if case['kind'] in ('cls', 'hist') else plain)
-        b = s.bind(*((['self'] if case['kind'] in ('cls', 'hist') else []) + pos(args)), **kw(kwargs))
+        s = inspect.signature(plain.__init__ if case['kind'] in ('cls', 'hist', 'hier') else plain)
+        b = s.bind(*((['self'] if case['kind'] in ('cls', 'hist', 'hier') else []) + pos(args)), **kw(kwargs))
         b.apply_defaults()
         d = dict(b.arguments)
         d.pop('self', None)
@@ -945,6 +1000,8 @@ class C18(Prop):
       return self.impl_hist(case, pg, mod, name, plain, obs)
     if case['kind'] == 'nest':
       return self.impl_nest(case, pg, mod, name, obs)
+    if case['kind'] == 'hier':
+      return self.impl_hier(case, pg, mod, name, plain, obs)
 
     model['py_c1'] = direct(a1, k1)
 
@@ -1097,6 +1154,65 @@ class C18(Prop):
       if na is not None:
         rc = to_call(sig, *na)
         obs['py_after_rebind'] = direct(rc['args'], rc['kwargs'])
+    return {'model': model, 'obs': obs}
+
+  def impl_hier(self, case, pg, mod, name, plain, obs):
+    missing = pg.MISSING_VALUE
+    sig, sig_p = case['sig'], case['sig_p']
+    parent = mod.__dict__[name + '_parent']
+    c1, pc = case['c1'], case['p_c1']
+    model = {}
+
+    def direct(fn, sg, args, kwargs, attr):
+      return outcome(lambda: fn(*pos(args), **kw(kwargs)), sg, with_kind=True, attr=attr)
+
+    model['py_c1'] = direct(plain, sig, c1['args'], c1['kwargs'], 'rec')
+    SymP = pg.symbolize(parent)
+    # the child wrapper class: a subclass of the symbolized parent with its own __init__
+    ns = {'SymP': SymP}
+    exec(compile('class %s_child(SymP):\n%s' % (name, mod.__dict__['HIER_CHILD_BODY']), '<c18:%s_child>' % name, 'exec'),
+         mod.__dict__, ns)   # pylint: disable=exec-used
+    mod.__dict__['SymP'] = SymP
+    exec(compile('class %s_child(SymP):\n%s' % (name, mod.__dict__['HIER_CHILD_BODY']), '<c18:%s_child>' % name, 'exec'),
+         mod.__dict__)   # pylint: disable=exec-used
+    Child = mod.__dict__[name + '_child']
+
+    def use_parent():
+      obs['parent'] = outcome(lambda: SymP(*pos(pc['args']), **kw(pc['kwargs'])), sig_p, attr='rec_p')
+      obs['parent_plain'] = outcome(lambda: parent(*pos(pc['args']), **kw(pc['kwargs'])), sig_p, attr='rec_p')
+
+    made = {}
+    def construct():
+      made['obj'] = Child(*pos(c1['args']), **kw(c1['kwargs']))
+      return made['obj']
+
+    if case['order'] == 'parent-first':
+      use_parent()
+    model['direct'] = outcome(construct, sig, attr='rec')
+    if case['order'] != 'parent-first':
+      use_parent()
+    obj = made.get('obj')
+    model['sym_init_args'] = canon_init_args(obj, missing, sig) if obj is not None else None
+    obs['init_signature'] = describe_signature(Child.__init__, True)
+    obs['plain_signature'] = describe_signature(plain.__init__, True)
+    if obj is not None:
+      obs['parent_view'] = strip_kind(outcome(lambda: obj, sig_p, attr='rec_p'))
+      obs['parent_view_plain'] = strip_kind(outcome(lambda: plain(*pos(c1['args']), **kw(c1['kwargs'])), sig_p, attr='rec_p'))
+      obs['clone'] = outcome(lambda: obj.clone(deep=True), sig, attr='rec')
+      obs['json'] = outcome(lambda: pg.from_json(obj.to_json()), sig, attr='rec')
+      if case.get('after_upd'):
+        n1 = name_args(sig, c1['args'], c1['kwargs'])
+        try:
+          obj.rebind(raise_on_no_change=False, **kw(case['after_upd']))
+          obs['rebind'] = outcome(lambda: obj, sig, attr='rec')
+        except Exception as e:   # pylint: disable=broad-except
+          obs['rebind'] = {'err': type(e).__name__}
+        obs['rebind_args'] = canon_init_args(obj, missing, sig)
+        if n1 is not None:
+          nl = apply_late(sig, n1, [{'op': 'rebind', 'upd': case['after_upd']}])
+          rc = to_call(sig, *nl)
+          obs['rebind_plain'] = strip_kind(direct(plain, sig, rc['args'], rc['kwargs'], 'rec'))
+          obs['rebind_expected_args'] = self.expected_report(sig, nl)
     return {'model': model, 'obs': obs}
 
   def impl_nest(self, case, pg, mod, name, obs):
@@ -1379,6 +1495,31 @@ class C18(Prop):
     if case['kind'] == 'nest':
       return self._oracle_nest(case, out)
 
+    if case['kind'] == 'hier':
+      stage = 'subclass-of-wrapper:%s' % case['order']
+      f = self._mismatch(stage, m['py_c1'], m['direct'])
+      if f:
+        return f
+      if obs.get('parent') != obs.get('parent_plain'):
+        return {'signature': 'wrapper-hierarchy:parent:%s' % case['order'],
+                'what': 'the symbolized parent gives %s, the plain parent %s' % (obs.get('parent'), obs.get('parent_plain'))}
+      if 'ok' in m['direct']:
+        f = self._reported(sig, n1, m['sym_init_args'], stage, full=True)
+        if f:
+          return f
+        if obs['parent_view'] != obs['parent_view_plain']:
+          return {'signature': 'wrapper-hierarchy:super-init', 'what': 'super().__init__ saw %s, plain: %s' % (obs['parent_view'], obs['parent_view_plain'])}
+        for k in ('clone', 'json'):
+          if obs[k] != m['direct']:
+            return {'signature': 'roundtrip:hierarchy-%s' % k, 'what': '%s holds %s, original %s' % (k, obs[k], m['direct'])}
+        if 'rebind_plain' in obs:
+          if obs['rebind_args'] != obs['rebind_expected_args']:
+            return {'signature': 'reported-args:hierarchy-rebind', 'what': 'after rebind sym_init_args = %s, expected %s' % (obs['rebind_args'], obs['rebind_expected_args'])}
+          if obs['rebind'] != obs['rebind_plain']:
+            return {'signature': 'wrapper-hierarchy:rebind:%s' % case['order'],
+                    'what': 'after rebind(%s) the child holds %s; Child(*reported) holds %s' % (case['after_upd'], obs['rebind'], obs['rebind_plain'])}
+      return None
+
     if case['kind'] == 'cls':
       f = self._mismatch('direct-construction', m['py_c1'], m['direct'])
       if f:
@@ -1658,6 +1799,12 @@ class C18(Prop):
       h.append('late-op:%s%s' % (op['op'], ':' + op['via'] if 'via' in op else ''))
       if op['op'] == 'rebind' and any(k not in sig_names(sig) for k, _ in op['upd']):
         h.append('late-op:wildcard-keyword')
+    if case['kind'] == 'hier':
+      h.append('hier:%s' % case['order'])
+      h.append('hier:child:%s' % (m['direct'].get('err') or 'ok'))
+      same = sorted(n for n, _ in case['sig']['pos']) == sorted(n for n, _ in case['sig_p']['pos'])
+      h.append('hier:positional-names-%s' % ('permuted' if same and case['sig']['pos'] != case['sig_p']['pos'] else 'other'))
+      return h
     if case['kind'] == 'nest':
       h.append('nest:other-bound-at-%s' % ('late' if case.get('late') else ('call' if any(k == 'other' for k, _ in case['c2']['kwargs']) else 'construct')))
       h.append('nest:thread=%s' % case.get('thread'))
@@ -1736,6 +1883,11 @@ class C18(Prop):
     used = {k for cn in calls for k, _ in case[cn]['kwargs']}
     used |= {k for st in case.get('steps', []) for k, _ in st['upd']}
     used |= {k for k, _ in case.get('clone_upd', [])}
+    used |= {k for k, _ in case.get('after_upd', [])}
+    if case.get('after_upd'):
+      cand = copy.deepcopy(case)
+      del cand['after_upd']
+      yield cand
     used |= {k for op in case.get('late', []) for k, _ in op.get('upd', [])}
     used |= {op['name'] for op in case.get('late', []) if 'name' in op}
     for i in range(len(case.get('late', []))):
